@@ -94,6 +94,21 @@ def _gen_function(prog, cfg, short, keep, _retried=False):
     try:
         obs = v.verify(f)
     except (Unsupported, ClauseError) as ex:
+        if not _retried and not keep:
+            # same second attempt as for failed obligations: helpers the executor abstracted so far are inlined,
+            # unannotated loops unrolled
+            tracked = set(v.tracked_events()) if hasattr(v, "tracked_events") else set()
+            helpers = sorted(h for h in getattr(v, "abstracted_inmodule", ()) if prog.short(h) not in tracked)
+            cfg2 = dict(cfg or {})
+            cfg2["inline"] = list(cfg2.get("inline", ())) + helpers
+            cfg2["auto_unroll"] = 4
+            j2, m2 = _gen_function(prog, cfg2, short, keep, _retried=True)
+            bad2 = [j for j in j2 if j.get("kind") not in ("cover",) and not j.get("presolved") and not j.get("canary") and
+                    ((j.get("result") or {}).get("status") not in (None, "unsat") or j.get("status") == "failed")]
+            if not bad2:
+                m2["assumptions"].add("%s: verified on a second attempt with contract-less helpers inlined (%s) and unannotated loops unrolled 4x under unwinding obligations" % (
+                    short, ", ".join(prog.short(h) for h in helpers) or "none"))
+                return j2, m2
         jobs.append({"name": short + ":subset:executor", "kind": "subset", "status": "failed", "func": short,
                      "detail": "outside the verified subset or contract does not bind: %s" % ex})
         return jobs, meta
